@@ -88,6 +88,14 @@ fn snapshot<S: Store>(data: &S) -> (Vec<Value>, Vec<Value>, Vec<Value>) {
     (regs, vals, frames)
 }
 
+/// Stable key of an error / panic message: the text up to the first digit, colon or parenthesis (TLC matches
+/// known-finding signatures by string equality, so variable parts must be cut off here).
+pub fn msg_key(msg: &str) -> String {
+    let inner = match msg.find("Some(\"") { Some(i) => &msg[i + 6..], None => msg };
+    let cut = inner.find(|c: char| c.is_ascii_digit() || c == ':' || c == '(' || c == '@').unwrap_or(inner.len());
+    inner[..cut].trim().chars().take(60).collect()
+}
+
 pub struct RunOpts {
     pub trace: bool,
     pub inject: bool,
@@ -166,6 +174,7 @@ pub fn execute<S: Store>(data: &mut S, start: usize, input: usize, opts: &RunOpt
         }
     }
     out.insert("status".into(), json!(status));
+    out.insert("msgk".into(), json!(msg_key(&msg)));
     out.insert("msg".into(), json!(msg));
     out.insert("steps".into(), json!(steps));
     out.insert("maxdepth".into(), json!(maxdepth));
